@@ -1715,6 +1715,12 @@ func (l *lexer) emit(typ int) {
 	l.emitted = true
 	verifPoint(3)
 	select {
+	case <-l.cancel:
+		// nothing is delivered once an error has been reported
+		panic(bailout)
+	default:
+	}
+	select {
 	case l.token <- tok:
 	case <-l.cancel:
 		panic(bailout)
